@@ -127,13 +127,32 @@ def build(tree):
     if t == "rep":
         return tree[1] @ build(tree[2])
     if t == "bin":
-        return build(tree[2]).map(BIN[tree[1]][1], build(tree[3]))
+        # exercise the operator / method spellings R exposes (direct, reflected with a scalar, .map)
+        variant = (len(repr(tree)) + tree[1]) % 3
+        l, r = tree[2], tree[3]
+        name = BIN[tree[1]][0]
+        if variant == 0 or name in ("lt", "eq", "ge", "ne") and variant == 1:
+            if name in ("add", "sub", "mul"):
+                if l[0] == "val":
+                    return {"add": operator.add, "sub": operator.sub, "mul": operator.mul}[name](l[1], build(r))  # reflected
+                if r[0] == "val":
+                    return {"add": operator.add, "sub": operator.sub, "mul": operator.mul}[name](build(l), r[1])
+                return {"add": operator.add, "sub": operator.sub, "mul": operator.mul}[name](build(l), build(r))
+            return getattr(build(l), name)(r[1] if r[0] == "val" else build(r))
+        return build(l).map(BIN[tree[1]][1], build(r))
     if t == "un":
+        variant = len(repr(tree)) % 2
+        if variant == 0:
+            return UN[tree[1]](build(tree[2]))  # -r, abs(r), +r
         return build(tree[2]).umap(UN[tree[1]])
     if t == "filt":
         p = pred_fn(tree[1], tree[2])
+        if len(tree[3]) == 1 and len(repr(tree)) % 2:
+            return build(tree[3][0]).filter(lambda o: p(o.value))
         return R.filter_from_sources(lambda o: p(o.value), *[build(s) for s in tree[3]])
     if t == "sel":
+        if len(tree[2]) == 1 and len(repr(tree)) % 2:
+            return build(tree[2][0]).select(*gen.which_to_py(tree[1]))
         return R.select_from_sources(gen.which_to_py(tree[1]), *[build(s) for s in tree[2]])
     if t == "subst":
         p = pred_fn(tree[1], tree[2])
